@@ -299,13 +299,46 @@ def rule_w2(chk: Check):
         # every call of method() happens under `key not in self._cache`
         chk.count("W2-cache-hit")
         calls_ok = True
-        for st in fn.body:
-            for n in ast.walk(st):
-                if isinstance(n, ast.Call) and isinstance(n.func, ast.Name) and n.func.id == "method":
-                    # it must sit in the *body* of the top-level `if key not in self._cache:` block
-                    if not (isinstance(st, ast.If) and norm_stmt(st.test) == "key not in self._cache"
-                            and any(n is x for b in st.body for x in ast.walk(b))):
+        from ..pyflow import stmt_paths as _sp
+
+        def _is_method_call(n):
+            return isinstance(n, ast.Call) and isinstance(n.func, ast.Name) and n.func.id == "method"
+        in_loop = any(_is_method_call(n) for lp in ast.walk(fn) if isinstance(lp, (ast.For, ast.While, ast.Try)) for n in ast.walk(lp))
+        if in_loop:
+            # the seed-growing loop: structural form — every call sits in the body of the top-level `if key not in self._cache:`
+            for st in fn.body:
+                for n in ast.walk(st):
+                    if _is_method_call(n) and not (isinstance(st, ast.If) and norm_stmt(st.test) == "key not in self._cache"
+                                                   and any(n is x for b in st.body for x in ast.walk(b))):
                         calls_ok = False
+        try:
+            if in_loop:
+                raise StopIteration
+            n_call_paths = 0
+            for pth in _sp(fn.body, split_bool=True):
+                known: dict[str, bool] = {}
+                feasible = True
+                called_at = None
+                for i, x in enumerate(pth):
+                    if x[0] == "cond" and x[1] in ("key in self._cache", "key not in self._cache"):
+                        hit = x[2] if x[1] == "key in self._cache" else not x[2]
+                        if called_at is None:
+                            if "hit" in known and known["hit"] != hit:
+                                feasible = False
+                            known["hit"] = hit
+                    text = x[1] if x[0] == "do" else (x[2] if x[0] == "exit" else "")
+                    if called_at is None and x[0] in ("do", "exit") and text and any(
+                            isinstance(c, ast.Call) and isinstance(c.func, ast.Name) and c.func.id == "method" for c in ast.walk(ast.parse(text))):
+                        called_at = i
+                        if known.get("hit") is not False:
+                            calls_ok = calls_ok and not feasible  # the rule ran on a path that did not establish a miss
+                        n_call_paths += 1
+            if n_call_paths == 0:
+                calls_ok = False
+        except StopIteration:
+            pass
+        except (AnalysisError, SyntaxError):
+            calls_ok = False
         chk.require(calls_ok, "W2-cache-hit", f"{inner}:miss-only", where,
                     "the wrapped rule may only run when the key is not cached")
         # the miss path stores the result
